@@ -114,7 +114,7 @@ GAPS = {
     'C08': ['System/Group._compute_root_scale_factors (how a0, a1, factor, offset are derived from metadata)', 'System._scaled_context_all / _unscaled_context around every user callback', 'DefaultVector._allocate_scaling_data sharing between linear and nonlinear vectors', 'converged outputs and total derivatives of whole models under different ref/ref0/res_ref (solver numerics)'],
     'C12': ['truncation error for non-polynomial functions', 'step_calc=rel_element and directional options', 'compute_approx_col_iter generator (save / finally restore of FD mode)', 'colored approximation equals uncolored (C03)', 'ComplexStep: outputs/residuals after a point, nested complex-step fallback to FD', 'approximated totals'],
     'C25': ['KSfunction.compute/derivatives and KSComp.compute/compute_partials: bounded exhaustive tier only', 'exact gradients of jax ks_max/ks_min (jax AD)', 'exp overflow for huge rho*(g-m) is excluded by the shift but floats are treated as reals'],
-    'C30': ['derivatives of the jax smooth helpers (jax AD)', 'second-order effects of a finite complex step', 'n-d arrays / axis argument of cs_safe.norm'],
+    'C30': ['derivatives of the jax smooth helpers (jax AD)', 'second-order effects of a finite complex step', 'n-d arrays (boolean masks over more than one axis are outside the NumPy model) and the axis argument of cs_safe.norm: BOUNDED tier only'],
     'C06': ['_find_unit / simplify_unit / SI prefixes: bounded exhaustive tier only (regex + eval are outside the subset)', 'fractional powers in PhysicalUnit.__pow__', 'has_val_mismatch', 'the numeric content of unit_library.ini'],
     'C13': ['Subjac.set_col for CSR / CSC / diagonal / dense storage and _CheckingJacobian.set_col: bounded exhaustive tier only (COOSubjac._set_coo_col is proved; its counter-model search is too slow for z3, so a broken body shows up through the boosted native sampling / bounded tier rather than a refutation)', 'directional derivative checks (directional_fd_fwd / directional_fwd_rev branches)', '_MagnitudeData bookkeeping values', 'deriv_display text rendering', 'which arrays check_partials/check_totals pass in as J_fwd/J_rev/J_fd'],
     'C27': ['types=list (element-wise values check)', 'set_function preprocessing', 'declare() default validation and argument checks', 'update()/undeclare()/set()', 'deprecation warning text'],
@@ -605,3 +605,21 @@ EXTRA_TIERS['C12'] = _c12_extra
 GAPS['C12'] = ['truncation error for non-polynomial functions: BOUNDED tier only (smooth test functions, tolerance proportional to the step)', 'coloured approximation equals uncoloured (ApproximationScheme._init_colored_approximations / _colored_column_iter): BOUNDED tier only',
                'step_calc=rel_element and directional options of _get_approx_data', 'compute_approx_col_iter generator (save / finally restore of FD mode)',
                'ComplexStep: outputs/residuals after a point, nested complex-step fallback to FD', 'approximated totals (group level), semi-total colourings']
+
+
+def _c30_extra(tier, seed, native_run):
+    out = {'violations': [], 'errors': []}
+    r = _run_bounded('c30_cs_safe.py', [tier], timeout=3000)
+    if 'error' in r:
+        out['errors'].append('bounded cs_safe tier could not run: ' + r['error'])
+        return out
+    out['bounded_cs_safe_nd'] = {
+        'note': 'BOUNDED stand-in (not counted in obligations): cs_safe.abs / norm (whole array and axis=-1) / arctan2 on n-d arrays: real value == NumPy, complex-step derivative == analytic derivative (all entries perturbed with distinct directions, and one entry at a time), incl. exact zeros',
+        'bound': 'shapes (3,), (2,2), (2,3), (1,2,2); entries from {-2, -0.5, 0, 0.5, 3}: exhaustive up to 4 entries (quick: every third 4-entry array), a deterministic slice of the 6-entry arrays',
+        'evaluations': r['evaluations'], 'distinct_nontrivial': r['distinct_nontrivial'], 'exhaustive': True, 'failures': r['n_failures'], 'samples': r['samples']}
+    for f in r['failures'][:3]:
+        out['violations'].append(dict(f, what='cs_safe: ' + f['kind'], witness_id='c30-%s' % json_key(f)))
+    return out
+
+
+EXTRA_TIERS['C30'] = _c30_extra
